@@ -630,6 +630,19 @@ def push_states(run_params: Params, env: Env = None) -> None:
     for state_params in _parametric_object_iteration(run_params):
         params_obj_name = state_params["object_name"]
         params_obj_type = state_params["object_type"]
+        if params_obj_type in state_params.objects("skip_types"):
+            logging.debug(
+                f"Skip pushing states of types {', '.join(state_params.objects('skip_types'))}"
+            )
+            continue
+        if params_obj_type == "nets/vms/images" and state_params.get_boolean(
+            "image_readonly", False
+        ):
+            logging.warning(
+                f"Incorrect configuration: cannot use any state "
+                f"from readonly image {params_obj_name} - skipping"
+            )
+            continue
 
         if not state_params.get("push_state"):
             continue
@@ -661,6 +674,19 @@ def pop_states(run_params: Params, env: Env = None) -> None:
     for state_params in _parametric_object_iteration(run_params):
         params_obj_name = state_params["object_name"]
         params_obj_type = state_params["object_type"]
+        if params_obj_type in state_params.objects("skip_types"):
+            logging.debug(
+                f"Skip popping states of types {', '.join(state_params.objects('skip_types'))}"
+            )
+            continue
+        if params_obj_type == "nets/vms/images" and state_params.get_boolean(
+            "image_readonly", False
+        ):
+            logging.warning(
+                f"Incorrect configuration: cannot use any state "
+                f"from readonly image {params_obj_name} - skipping"
+            )
+            continue
 
         if not state_params.get("pop_state"):
             continue
